@@ -741,6 +741,10 @@ impl Card {
                 }
                 if mosi & 0xC0 == 0x40 {
                     self.flush_idle();
+                    if self.mode != Mode::RdMulti && !self.outq.is_empty() {
+                        // the card is still sending (the rest of a data packet, a response): a frame that starts now collides with it
+                        self.log.push(json!({"ev": "Junk", "byte": mosi, "mode": "Overlap"}));
+                    }
                     self.frame.push(mosi);
                     return if self.mode == Mode::RdMulti { self.next_out() } else { 0xFF };
                 }
